@@ -266,9 +266,9 @@ MC_PLAN = {
     "C03": [("MC_SubSlot", None, "MC_SubSlot.cfg", "+1w", "trace"), ("MC_Alt", "MC_Alt.cfg", "MC_AltFull.cfg", "+1w", "trace"),
             ("MC_Team", "MC_TeamTiny.cfg", "MC_TeamFull.cfg", "+1w", "trace")],
     "C06": [("MC_SubSlot", None, "MC_SubSlot.cfg", "+1w", "trace"), ("MC_Alap", "MC_AlapTiny.cfg", "MC_Alap.cfg", "+1w", "trace")],
-    "C08": [("MC_Alap", "MC_AlapTiny.cfg", "MC_Alap.cfg", "+1w", "trace"), ("MC_Core", None, "MC_Core.cfg", "+1w", "trace"),
+    "C08": [("MC_Alap", "MC_AlapTiny.cfg", "MC_Alap.cfg", "+1w", "trace"), ("MC_Jit", "MC_JitTiny.cfg", "MC_Jit.cfg", "+1w", "trace"), ("MC_Core", None, "MC_Core.cfg", "+1w", "trace"),
             ("MC_Cal", None, "MC_CalFull.cfg", "+2w", "trace")],
-    "C04": [("MC_Alap", "MC_AlapTiny.cfg", "MC_AlapFull.cfg", "+1w", "trace"), ("MC_Tree", None, "MC_TreeFull.cfg", "+1w", "trace")],
+    "C04": [("MC_Alap", "MC_AlapTiny.cfg", "MC_AlapFull.cfg", "+1w", "trace"), ("MC_Jit", None, "MC_Jit.cfg", "+1w", "trace"), ("MC_Tree", None, "MC_TreeFull.cfg", "+1w", "trace")],
     "C05": [("MC_Limits", "MC_LimitsTiny.cfg", "MC_Limits.cfg", "+2w", "trace"), ("MC_Week", "MC_WeekTiny.cfg", "MC_WeekFull.cfg", "+22d", "trace")],
 }
 
